@@ -1,3 +1,53 @@
-From Coq Require Import ZArith List Bool.
-Require Import EmbossV.View.Model.
-Lemma placeholder_c01 : True. Proof. exact I. Qed.
+(* C01 — property theorems about the model of generated views (statements only). *)
+From Coq Require Import ZArith List Bool Permutation.
+Import ListNotations.
+Require Import EmbossV.Bounds.Model EmbossV.View.Model EmbossV.View.Proofs.
+Open Scope Z_scope.
+
+(* The Maybe<> expression semantics is monotone in the information order: whatever an
+   expression (condition, offset, size, virtual field) reports as Known keeps its value when
+   the fields it mentions become more defined (more bytes readable). *)
+Theorem maybe_semantics_monotone : forall e e' s s' x,
+  env_le e e' -> mle s s' -> mle (meval e s x) (meval e' s' x).
+Proof. exact meval_mono. Qed.
+Print Assumptions maybe_semantics_monotone.
+
+(* The synthesized $size_in_bytes/$size_in_bits expression is the largest end of any present
+   physical field (0 if none), whenever presence and the locations of present fields are known. *)
+Theorem size_is_max_end : forall e fs vals,
+  Forall2 (fun f v => match f, v with
+                      | (c, st, sz), (p, a, b) =>
+                          meval e None c = Some (VBool p) /\
+                          (p = true -> meval e None st = Some (VInt a) /\ meval e None sz = Some (VInt b))
+                      end) fs vals ->
+  meval e None (size_expr fs) = Some (VInt (max_end vals 0)).
+Proof. exact Proofs.size_is_max_end. Qed.
+Print Assumptions size_is_max_end.
+
+(* The switch block of the optimised Ok() decides exactly what the per-field tests decide,
+   provided labels and discriminant have the same kind (the C++ typing of labels is finding F10). *)
+Theorem ok_switch_equiv : forall e discr cases,
+  cases <> [] ->
+  (forall d, meval e None discr = Some d ->
+     Forall (fun c => match fst c, d with VInt _, VInt _ | VEnum _, VEnum _ | VBool _, VBool _ => True | _, _ => False end) cases) ->
+  ok_switch e discr cases = ok_naive e (map (fun c => (cond_of discr (fst c), snd c)) cases).
+Proof. exact Proofs.ok_switch_equiv. Qed.
+Print Assumptions ok_switch_equiv.
+
+(* ... and the result of Ok() does not depend on how fields are grouped or ordered into blocks. *)
+Theorem ok_grouping_irrelevant : forall e a b, Permutation a b -> ok_naive e a = ok_naive e b.
+Proof. exact Proofs.ok_naive_perm. Qed.
+Theorem ok_blocks_compose : forall e a b, ok_naive e (a ++ b) = ok_naive e a && ok_naive e b.
+Proof. exact Proofs.ok_naive_app. Qed.
+
+(* GetOffsetStorage: the sub-storage handed to a field never leaves its parent. *)
+Theorem offset_storage_within_parent : forall o l off size o' l',
+  0 <= off -> 0 <= size -> bstore_offset (Some (o, l)) off size = Some (o', l') ->
+  l' = 0 \/ (o <= o' /\ o' + l' <= o + l).
+Proof. exact bstore_offset_within. Qed.
+Theorem offset_storage_in_bounds : forall n b off size,
+  bstore_in n b -> 0 <= off -> 0 <= size -> bstore_in n (bstore_offset b off size).
+Proof. exact bstore_offset_in. Qed.
+Theorem offset_bits_in_container : forall s off size,
+  bits_in s -> 0 <= off -> 0 <= size -> bits_in (get_offset s off size).
+Proof. exact get_offset_bits_in. Qed.
